@@ -882,9 +882,23 @@ func metaBatch(c *Ctx, n int) {
 	defer e.close()
 	r := c.Rng
 	lib := filepath.Join(e.root, "lib")
-	names := []string{"f", "g", "_h", "a", "ab", "a_", "B", "z9", "_", "f2", "aa"}
-	for i := 0; i < n; i++ {
+	names := []string{"f", "g", "_h", "a", "ab", "a_", "B", "z9", "_", "f2", "aa", "f1", "f_", "f10"}
+	arities := []int{0, 1, 2, 9, 10, 11, 30}
+	for i := 0; i < n+3; i++ {
 		nd := r.Intn(7)
+		// fixed shapes first: one name at arities with different digit counts, names that are prefixes of each other
+		var fixedDefs [][2]any
+		switch i {
+		case 0:
+			fixedDefs = [][2]any{{"f", 10}, {"f", 2}, {"f", 30}, {"f", 9}, {"f", 0}, {"f", 11}, {"f", 1}}
+		case 1:
+			fixedDefs = [][2]any{{"f_", 0}, {"f1", 10}, {"f", 11}, {"f1", 2}, {"f", 2}, {"f10", 1}, {"f_", 10}, {"_f", 1}}
+		case 2:
+			fixedDefs = [][2]any{{"f", 30}, {"f", 3}, {"f2", 0}, {"f", 29}, {"f", 2}, {"f", 20}, {"f", 19}, {"f", 1}, {"f", 10}}
+		}
+		if fixedDefs != nil {
+			nd = len(fixedDefs)
+		}
 		var text, defs strings.Builder
 		ni := r.Intn(4)
 		type dep struct {
@@ -910,6 +924,12 @@ func metaBatch(c *Ctx, n int) {
 		for j := 0; j < nd; j++ {
 			nmm := names[r.Intn(len(names))]
 			ar := r.Intn(3)
+			if r.Chance(1, 2) {
+				ar = arities[r.Intn(len(arities))]
+			}
+			if fixedDefs != nil {
+				nmm, ar = fixedDefs[j][0].(string), fixedDefs[j][1].(int)
+			}
 			ps := make([]string, ar)
 			for k := range ps {
 				ps[k] = "p" + strconv.Itoa(k)
